@@ -36,6 +36,7 @@ ScriptsLT == { <<Item("resp", R1), I("close")>>, <<I("get"), I("streamerr")>>, <
                <<I("resp"), I("close")>> }
 ScriptsLQ == { <<Item("resp", R1), I("close")>>, <<I("get"), I("streamerr")>> }
 ProgramsLT == { <<"close", "tx">> }
+ProgramsRQ == { <<"close", "tx">>, <<"deadline", "close">> }
 
 ProgramsMC == { <<>>, <<"tx">>, <<"close">>, <<"tx", "close">>, <<"close", "tx">>, <<"close", "close">>, <<"updaddr">> }
 ProgramsDl == ProgramsMC \cup { <<"deadline", "close">>, <<"deadline">>, <<"updaddr", "tx">> }
